@@ -288,6 +288,14 @@ fn hot_reloading_thread(
         loop {
             match cache_msg.try_recv() {
                 Ok(CacheMessage::Ptr(ptr, reloader, token)) => {
+                    // Events sent before the request must be taken into
+                    // account by this update (those sent meanwhile can wait)
+                    for _ in 0..events.len() {
+                        if let Ok(msg) = events.try_recv() {
+                            cache.handle_events(msg);
+                        }
+                    }
+
                     // Safety: The received pointer is guaranteed to
                     // be valid until we reply back
                     unsafe {
